@@ -313,6 +313,8 @@ def _replay(r):
         return replay_predicate(fn, model)
     if r.get('family') == 'printers':
         return replay_printers(fn, model)
+    if fn == 'evaluator' and 'pretty_str' in (r.get('function') or ''):
+        return replay_pretty_str(model)
     if r.get('family') == 'config':
         full = r.get('function') or ''
         return replay_config(full if full in _CONFIG_CHECKS else fn, model)
@@ -411,6 +413,53 @@ def _check_container(P, kind, native, n, N, depth_left, tc):
         return ('evaluates to %r of type %s' % (got if len(repr(got)) < 200 else repr(got)[:200], type(got).__name__),
                 'the first min(len, N) = %d elements as a %s' % (shown, cls.__name__))
     return None
+
+
+class _SubStr(str):
+    pass
+
+
+class _SubBytes(bytes):
+    pass
+
+
+def replay_pretty_str(model):
+    """real prints of strings around what the evaluator decides: empty, exactly fitting, too wide, unsplittable, subclass instances,
+    as a top-level value / list element / dict value, at widths from 1 column up: the text must evaluate to an equal value of the same type"""
+    import warnings
+    warnings.simplefilter('ignore')
+    common.load_repo()
+    import prettyprinter
+    ms = model.get('s')
+    cands = ['', b'', 'a', 'abcdefgh', 'word ' * 12, 'x' * 60, "it's \"quoted\" text " * 4, b'bytes with spaces ' * 5,
+             _SubStr(''), _SubStr('sub class ' * 8), _SubBytes(b'sub bytes ' * 8)]
+    if isinstance(ms, str) and len(ms) < 500:
+        cands.insert(0, ms)
+    ns = {'_SubStr': _SubStr, '_SubBytes': _SubBytes}
+    tried = 0
+    for v in cands:
+        for wrap in (lambda x: x, lambda x: [x], lambda x: {'abcdefgh': x}, lambda x: [[[[x]]]]):
+            for w in (1, 2, 10, 11, 12, 20, 40, 79):
+                val = wrap(v)
+                tried += 1
+                try:
+                    text = prettyprinter.pformat(val, width=w)
+                    got = eval('(' + text.replace('pvf.native._Sub', '_Sub') + '\n)', dict(ns))
+                    ok = got == val and repr(type(_leaf(got))) == repr(type(v))
+                    obs = text if not ok else ''
+                except Exception as e:      # noqa
+                    ok, obs = False, 'raised / does not evaluate: %r' % e
+                if not ok:
+                    inp = 'pformat(%r, width=%d)' % (val, w)
+                    return dict(confirmed=True, input=inp, observed=obs[:300], required='evaluates to an equal value of the same type',
+                                detail='%s printed %r; the statement requires literals whose concatenation is the value, inside its class' % (inp, obs[:200]))
+    return dict(confirmed=False, detail='the real printer reproduces the string on %d prints' % tried)
+
+
+def _leaf(x):
+    while isinstance(x, (list, dict)):
+        x = (list(x.values()) if isinstance(x, dict) else x)[0]
+    return x
 
 
 def replay_printers(fn, model):
